@@ -1001,13 +1001,23 @@ func ExtractMeasuredDataCSV(scannerObserv *bufio.Scanner, g *GlobalVarsMain, Fid
 				KONZ[1] = ValAsFloat(tokens[headers[nm36]], obs, tokens[headers[nm36]])
 				KONZ[2] = ValAsFloat(tokens[headers[nm69]], obs, tokens[headers[nm69]])
 
-				if val, err := TryValAsFloat(tokens[headers[nm912]]); err == nil {
+				// optional columns: a column that is not in the header (or not in the line) has no value,
+				// it must not fall back to column 0 (the ID), which is what the header map returns for a missing key
+				optionalValue := func(h MeasurementHeader) (float64, bool) {
+					idx, ok := headers[h]
+					if !ok || idx >= len(tokens) {
+						return 0, false
+					}
+					val, err := TryValAsFloat(tokens[idx])
+					return val, err == nil
+				}
+				if val, ok := optionalValue(nm912); ok {
 					KONZ[3] = val
 				}
-				if val, err := TryValAsFloat(tokens[headers[nm1215]]); err == nil {
+				if val, ok := optionalValue(nm1215); ok {
 					KONZ[4] = val
 				}
-				if val, err := TryValAsFloat(tokens[headers[nm1520]]); err == nil {
+				if val, ok := optionalValue(nm1520); ok {
 					KONZ[5] = val
 				}
 
@@ -1016,13 +1026,13 @@ func ExtractMeasuredDataCSV(scannerObserv *bufio.Scanner, g *GlobalVarsMain, Fid
 				winit[1] = ValAsFloat(tokens[headers[w36]], obs, tokens[headers[w36]])
 				winit[2] = ValAsFloat(tokens[headers[w69]], obs, tokens[headers[w69]])
 
-				if val, err := TryValAsFloat(tokens[headers[w912]]); err == nil {
+				if val, ok := optionalValue(w912); ok {
 					winit[3] = val
 				}
-				if val, err := TryValAsFloat(tokens[headers[w1215]]); err == nil {
+				if val, ok := optionalValue(w1215); ok {
 					winit[4] = val
 				}
-				if val, err := TryValAsFloat(tokens[headers[w1520]]); err == nil {
+				if val, ok := optionalValue(w1520); ok {
 					winit[5] = val
 				}
 				if g.MES[0] != "------" {
